@@ -65,7 +65,9 @@ impl<'a, A: ToSocketAddrs> UdpSendTo<'a, A> {
 
 impl<A: ToSocketAddrs> EventSource for UdpSendTo<'_, A> {
     fn subscribe(&mut self, co: CoroutineImpl) {
-        let io_data = self.io_data;
+        // once the coroutine is stored below it can be resumed by the selector thread,
+        // finish and drop the socket `self.io_data` points into: keep the event data alive
+        let io_data = (**self.io_data).clone();
 
         #[cfg(feature = "io_timeout")]
         if let Some(dur) = self.timeout {
